@@ -36,6 +36,7 @@ func checkC13(c *Ctx) {
 	ruleL3d(c)
 	ruleL5(c)
 	ruleL6(c, allPkgs, 15)
+	ruleL6c(c, allPkgs)
 }
 
 // ruleU3: X.WithLock(m) returns a closure whose every invocation of X happens
@@ -375,6 +376,8 @@ func checkC12(c *Ctx) {
 	ruleStackNode(c)
 	ruleX9(c)
 	ruleX4b(c)
+	ruleX11(c)
+	ruleX12(c)
 }
 
 func checkC14(c *Ctx) {
